@@ -29,7 +29,7 @@ add("C23", "proof", "every ensures clause and both loop invariants of connected_
 add("C24", "proof", "16 targets of OrderedSet.py (constructor, add, discard, update, copy, len, contains, iter, <=, >=, ordered_union/intersect/diff) proved against the abstraction (member set, injective insertion stamps): 130 obligations incl. loop invariants with the ghost first-occurrence map. Inherited MutableSet mixins and __lt__/__gt__/union are only in the bounded ride-along (all op sequences ≤3/4).",
     PYVC_TB + "; OrderedDict iteration = insertion order; update proved for 0,1,2 iterables", "contract-based deductive verification: representation invariant + loop invariants, VCs from the real AST, z3", "§5 C24")
 
-add("C04", "other", HYB + "PROVED: SQLModel._indent_and_sep_terms lays out exactly one line per term, in order, with indent / comma decoration only, for every option setting. BOUNDED: every SQL formatting/optimisation option combination (2^4 x 3 indents x extend-merge on/off on SQLite; PostgreSQL text with CTE elimination on the sqlite3 surrogate) must return the same table as the default options, on the enumerated corpus plus DAGs that share a sub-pipeline.",
+add("C04", "other", HYB + "PROVED: SQLModel._indent_and_sep_terms lays out exactly one line per term, in order, with indent / comma decoration only, for every option setting; the key under which CTE elimination may share a step's query identifies the node together with its sources (select_rows / project / rename / map_columns / order_rows translations). BOUNDED: every SQL formatting/optimisation option combination (2^4 x 3 indents x extend-merge on/off on SQLite; PostgreSQL text with CTE elimination on the sqlite3 surrogate) must return the same table as the default options, on the enumerated corpus plus DAGs that share a sub-pipeline.",
     PYVC_TB + "; " + BOUNDED_TB + "; PostgreSQL dialect text executed on sqlite3 as a labelled surrogate", "contract-based deductive verification of the term layout routine (VCs from the real AST, z3) + run-time contracts over an enumerated scope for the option combinations", "§5 C04")
 add("C05", "other", "bounded: every catalogued (method, backend) pair marked supported (Pandas, SQLite; Polars when it returns) against doc_meaning reference functions written from the Term docstrings, over an operand grid incl. nulls. The 3VL proofs of the SQL formatters are not built yet.",
     BOUNDED_TB + "; PostgreSQL column of the catalogue not executed", "run-time contract over an enumerated operand grid (bounded stand-in); no obligation proved", "§5 C05")
